@@ -93,19 +93,20 @@ func TestC15(t *testing.T) {
 	all := append(append([]svcMethod{}, admin...), wf...)
 	// allow-lists: absent policy, empty (= unrestricted), singletons, random subsets, everything
 	type pol struct {
-		present bool
-		methods []string
+		present    bool
+		methods    []string
+		namespaces []string // the policy's namespace allow-list (C16's clause); the METHOD verdict must not depend on it
 	}
-	pols := []pol{{false, nil}, {true, nil}}
+	pols := []pol{{present: false}, {present: true}}
 	nSingle := 6
 	if e.Thorough() {
 		nSingle = len(admin)
 	}
 	perm := rng.Perm(len(admin))
 	for i := 0; i < nSingle; i++ {
-		pols = append(pols, pol{true, []string{admin[perm[i]].Name}})
+		pols = append(pols, pol{present: true, methods: []string{admin[perm[i]].Name}})
 	}
-	pols = append(pols, pol{true, []string{"StreamWorkflowReplicationMessages"}}, pol{true, []string{"RegisterNamespace"}}, pol{true, []string{"NoSuchMethod"}})
+	pols = append(pols, pol{present: true, methods: []string{"StreamWorkflowReplicationMessages"}}, pol{present: true, methods: []string{"RegisterNamespace"}}, pol{present: true, methods: []string{"NoSuchMethod"}})
 	for i := 0; i < 3; i++ {
 		var l []string
 		for _, m := range admin {
@@ -113,7 +114,7 @@ func TestC15(t *testing.T) {
 				l = append(l, m.Name)
 			}
 		}
-		pols = append(pols, pol{true, l})
+		pols = append(pols, pol{present: true, methods: l})
 	}
 	// look-alike lists: a listed name that is a proper prefix / suffix / substring of an admin method that is NOT listed
 	// (GetNamespace ~ GetNamespaceReplicationMessages, GetWorkflowExecutionRawHistory ~ ...V2, a WorkflowService name inside
@@ -152,14 +153,42 @@ func TestC15(t *testing.T) {
 			a, b := pairs[pi][0], pairs[pi][1]
 			switch i % 3 {
 			case 0:
-				pols = append(pols, pol{true, []string{a, other(b)}})
+				pols = append(pols, pol{present: true, methods: []string{a, other(b)}})
 			case 1:
-				pols = append(pols, pol{true, []string{other(b), a, other(b)}})
+				pols = append(pols, pol{present: true, methods: []string{other(b), a, other(b)}})
 			default:
-				pols = append(pols, pol{true, []string{other(b), a}})
+				pols = append(pols, pol{present: true, methods: []string{other(b), a}})
 			}
 		}
-		pols = append(pols, pol{true, []string{"Get", "Describe.*", other()}}, pol{true, []string{other(), ".*"}}, pol{true, []string{"*", other(), "Namespace"}})
+		pols = append(pols, pol{present: true, methods: []string{"Get", "Describe.*", other()}}, pol{present: true, methods: []string{other(), ".*"}}, pol{present: true, methods: []string{"*", other(), "Namespace"}})
+	}
+	// policies that also carry a namespace allow-list: a call refused by the method rules stays refused whatever the
+	// namespace rules say about its (here: empty) request
+	{
+		var l []string
+		for _, m := range admin {
+			if rng.IntN(3) == 0 {
+				l = append(l, m.Name)
+			}
+		}
+		pols = append(pols, pol{present: true, methods: []string{"DescribeCluster"}, namespaces: []string{"allowed-ns"}}, pol{present: true, methods: l, namespaces: []string{"allowed-ns", "also-ok"}}, pol{present: true, methods: []string{"NoSuchMethod"}, namespaces: []string{"allowed-ns"}})
+	}
+	nsNames := map[string]string{} // per method: the namespace names of its empty request, as the model is told them
+	namesOf := func(full string) string {
+		if v, ok := nsNames[full]; ok {
+			return v
+		}
+		var all, enc []string
+		listNsValues(newMsg(methodDesc(full).Input()).ProtoReflect(), &all)
+		for _, n := range all {
+			enc = append(enc, encName(n))
+		}
+		v := "."
+		if len(enc) > 0 {
+			v = strings.Join(enc, ",")
+		}
+		nsNames[full] = v
+		return v
 	}
 	transports := []string{"tcp", "mux"}
 	for pi, p := range pols {
@@ -170,8 +199,8 @@ func TestC15(t *testing.T) {
 			cfg := config.ClusterConnConfig{}
 			pstr := "none"
 			if p.present {
-				cfg.ACLPolicy = &config.ACLPolicy{AllowedMethods: config.AllowedMethods{AdminService: p.methods}}
-				pstr = "p=" + strings.Join(p.methods, ",") + "|"
+				cfg.ACLPolicy = &config.ACLPolicy{AllowedMethods: config.AllowedMethods{AdminService: p.methods}, AllowedNamespaces: p.namespaces}
+				pstr = "p=" + strings.Join(p.methods, ",") + "|" + strings.Join(p.namespaces, ",")
 			}
 			var pp *proxyPair
 			var err error
@@ -221,7 +250,11 @@ func TestC15(t *testing.T) {
 						if m.Streaming {
 							kind = "stream"
 						}
-						op := fmt.Sprintf("%s %d %s %s .", kind, inbound, pstr, m.Full)
+						names := "."
+						if len(p.namespaces) > 0 {
+							names = namesOf(m.Full)
+						}
+						op := fmt.Sprintf("%s %d %s %s %s", kind, inbound, pstr, m.Full, names)
 						e.Emit(op, dec)
 						e.Evals++
 						e.Distinct(fnv(op + tr))
@@ -244,7 +277,7 @@ func TestC15(t *testing.T) {
 							if !isAdmin && (m.Name == "RegisterNamespace" || m.Name == "DeprecateNamespace") && (dec != "denied" || saw) {
 								e.Violation(map[string]any{"what": fmt.Sprintf("%s was not refused under a policy on the inbound %s server", m.Name, tr), "ops": []string{op}})
 							}
-							if isAdmin && listed && dec == "denied" {
+							if isAdmin && listed && dec == "denied" && len(p.namespaces) == 0 {
 								e.Violation(map[string]any{"what": fmt.Sprintf("allowed admin method %s was refused (allow-list %v)", m.Name, p.methods), "ops": []string{op}})
 							}
 						}
